@@ -41,6 +41,9 @@ pub struct Conf {
   pub governance: String,
   pub permissions: String,
   pub k128: bool,
+  /// an attacker: its own identity comes from `identity_ca` (any CA), but it checks its peers against this CA
+  /// file, so that its real plug-in produces well-formed, correctly signed messages for honest participants
+  pub impostor_peers_ca: Option<String>,
 }
 
 impl Conf {
@@ -54,6 +57,7 @@ impl Conf {
       governance: format!("{gov}.p7s"),
       permissions: "permissions.p7s".into(),
       k128: false,
+      impostor_peers_ca: None,
     }
   }
 
@@ -96,11 +100,14 @@ impl Part {
   /// of built-in endpoints, which the drivers here do not create)
   pub fn bring_up(tag: u8, conf: &Conf, domain: u16) -> Result<Part, String> {
     let qos = conf.qos();
-    let mut plugins = SecurityPlugins::new(
-      Box::new(AuthenticationBuiltin::new()),
-      Box::new(AccessControlBuiltin::new()),
-      Box::new(CryptographicBuiltin::new()),
-    );
+    let mut plugins = match &conf.impostor_peers_ca {
+      None => SecurityPlugins::new(Box::new(AuthenticationBuiltin::new()), Box::new(AccessControlBuiltin::new()), Box::new(CryptographicBuiltin::new())),
+      Some(ca) => SecurityPlugins::new(
+        Box::new(crate::security::authentication::authentication_builtin::verif_access::VerifImpostorAuth::new(std::fs::read(fx(ca)).map_err(|x| format!("MACHINERY {x}"))?)),
+        Box::new(AccessControlBuiltin::new()),
+        Box::new(CryptographicBuiltin::new()),
+      ),
+    };
     let cand = GUID::new_with_prefix_and_id(GuidPrefix::new(&[tag; 12]), EntityId::PARTICIPANT);
     let guid = plugins.validate_local_identity(domain, &qos, cand).map_err(|x| format!("validate_local_identity: {}", x.msg))?;
     plugins
